@@ -288,6 +288,9 @@ func runHTTP(tc tcase, serverStreaming bool) result {
 	for _, kv := range tc.headers {
 		req.Header.Add(kv[0], kv[1])
 	}
+	// the handler's context already carries OUTGOING metadata (as a middleware in front of the bridge that makes calls of its
+	// own would leave it): none of it may reach the target - what reaches the target is the filter's result and nothing else
+	req = req.WithContext(metadata.NewOutgoingContext(req.Context(), metadata.Pairs("x-upstream-token", "secret", "authorization", "Bearer middleware")))
 	rec := httptest.NewRecorder()
 	b.ServeHTTP(rec, req)
 	res := rec.Result()
